@@ -1,7 +1,7 @@
 // libdrv — runs kestrel-crypto (built from /repo's working tree, hooks on) on line-oriented cases.
 // One case per stdin line:  <id> <op> <arg> ...   (byte strings hex-encoded, "-" = empty)
 // One result per stdout line: <id> <key=value> ...
-use std::cell::RefCell;
+use std::cell::{Cell, RefCell};
 use std::collections::VecDeque;
 use std::io::{self, BufRead, ErrorKind, Read, Write};
 use std::panic::{catch_unwind, AssertUnwindSafe};
@@ -85,11 +85,38 @@ fn parse_script(s: &str) -> VecDeque<Act> {
 
 type Trace = Rc<RefCell<Vec<String>>>;
 
+// What the running case has read / written / traced so far, shared with `main` so that it can still be
+// reported when the library panics in the middle of a run (`outcome=panic out=.. consumed=.. trace=..`).
+// Set by mk_io, cleared before every case.
+struct LiveObs {
+    tr: Trace,
+    out: Rc<RefCell<Vec<u8>>>,
+    pos: Rc<Cell<usize>>,
+}
+thread_local! {
+    static LIVE: RefCell<Option<LiveObs>> = RefCell::new(None);
+}
+fn live_report() -> Option<String> {
+    LIVE.with(|l| {
+        let l = l.try_borrow().ok()?;
+        let o = l.as_ref()?;
+        let tr = o.tr.try_borrow().ok()?;
+        let out = o.out.try_borrow().ok()?;
+        Some(format!(
+            "out={} consumed={} trace={}",
+            hex(&out),
+            o.pos.get(),
+            if tr.is_empty() { "-".to_string() } else { tr.join(",") }
+        ))
+    })
+}
+
 struct SReader {
     data: Vec<u8>,
     pos: usize,
     script: VecDeque<Act>,
     tr: Trace,
+    pos_live: Rc<Cell<usize>>,
 }
 impl Read for SReader {
     fn read(&mut self, buf: &mut [u8]) -> io::Result<usize> {
@@ -105,6 +132,7 @@ impl Read for SReader {
         };
         buf[..m].copy_from_slice(&self.data[self.pos..self.pos + m]);
         self.pos += m;
+        self.pos_live.set(self.pos);
         self.tr.borrow_mut().push(format!("r{}:{}", req, m));
         Ok(m)
     }
@@ -114,6 +142,7 @@ struct SWriter {
     wscript: VecDeque<Act>,
     fscript: VecDeque<Act>,
     tr: Trace,
+    out_live: Rc<RefCell<Vec<u8>>>,
 }
 impl Write for SWriter {
     fn write(&mut self, buf: &[u8]) -> io::Result<usize> {
@@ -126,6 +155,7 @@ impl Write for SWriter {
             }
         };
         self.out.extend_from_slice(&buf[..m]);
+        self.out_live.borrow_mut().extend_from_slice(&buf[..m]);
         self.tr.borrow_mut().push(format!("w{}:{}", buf.len(), m));
         Ok(m)
     }
@@ -145,9 +175,14 @@ impl Write for SWriter {
 
 fn mk_io(data: &str, rs: &str, ws: &str, fs: &str) -> (SReader, SWriter, Trace) {
     let tr: Trace = Rc::new(RefCell::new(Vec::new()));
+    let out_live = Rc::new(RefCell::new(Vec::new()));
+    let pos_live = Rc::new(Cell::new(0usize));
+    LIVE.with(|l| {
+        *l.borrow_mut() = Some(LiveObs { tr: tr.clone(), out: out_live.clone(), pos: pos_live.clone() })
+    });
     (
-        SReader { data: unhex(data), pos: 0, script: parse_script(rs), tr: tr.clone() },
-        SWriter { out: Vec::new(), wscript: parse_script(ws), fscript: parse_script(fs), tr: tr.clone() },
+        SReader { data: unhex(data), pos: 0, script: parse_script(rs), tr: tr.clone(), pos_live },
+        SWriter { out: Vec::new(), wscript: parse_script(ws), fscript: parse_script(fs), tr: tr.clone(), out_live },
         tr,
     )
 }
@@ -206,14 +241,21 @@ fn opt_pk(s: &str) -> Option<PublicKey> {
     if s == "none" { None } else { Some(PublicKey::try_from(unhex(s).as_slice()).unwrap()) }
 }
 
-// The hook's stream mutex gets poisoned when secure_random() runs dry (the assert fires while the
-// lock is held); after that every later draw, setrand and randleft panics for the rest of the
-// process.  So cases that would overdraw an installed stream are refused up front.
+// An installed stream that runs dry makes secure_random() panic (since /repo 24bed26 the hook releases
+// the stream's lock BEFORE it panics, so the mutex is not poisoned and later cases still work).  A case
+// that would overdraw is nevertheless refused up front, so that it is told apart from a library panic
+// and leaves the stream untouched.
 pub(crate) fn rand_short(need: usize) -> Option<String> {
     match kc::verif_hooks::random_stream_remaining() {
         Some(have) if have < need => Some(format!("outcome=rand_short need={} have={}", need, have)),
         _ => None,
     }
+}
+
+// noise.rs::init_x keeps an injected ephemeral pair only when BOTH halves are given; in every other case
+// (none, or only one half) write_message's token `e` draws a fresh private key: 32 bytes.
+fn eph_draw(e: &Option<PrivateKey>, epk: &Option<PublicKey>) -> usize {
+    if e.is_some() && epk.is_some() { 0 } else { 32 }
 }
 
 fn run(a: &[&str]) -> String {
@@ -245,7 +287,7 @@ fn run(a: &[&str]) -> String {
             let e = opt_sk(a[4]);
             let epk = opt_pk(a[5]);
             let pk = if a[6] == "none" { None } else { Some(PayloadKey::new(&unhex(a[6]))) };
-            let need = if pk.is_none() { 32 } else { 0 } + if e.is_none() { 32 } else { 0 };
+            let need = if pk.is_none() { 32 } else { 0 } + eph_draw(&e, &epk);
             if let Some(msg) = rand_short(need) {
                 return msg;
             }
@@ -328,7 +370,7 @@ fn run(a: &[&str]) -> String {
             let e = opt_sk(a[4]);
             let epk = opt_pk(a[5]);
             let pk = PayloadKey::new(&unhex(a[7]));
-            if let Some(msg) = rand_short(if e.is_none() { 32 } else { 0 }) {
+            if let Some(msg) = rand_short(eph_draw(&e, &epk)) {
                 return msg;
             }
             match kc::noise_encrypt(&s, &spk, &rpk, e.as_ref(), epk.as_ref(), &unhex(a[6]), &pk) {
@@ -409,10 +451,15 @@ fn main() {
             continue;
         }
         let id = toks[0];
+        LIVE.with(|l| *l.borrow_mut() = None);
         let res = catch_unwind(AssertUnwindSafe(|| run(&toks[1..])));
         let body = match res {
             Ok(s) => s,
-            Err(_) => "outcome=panic".to_string(),
+            // a streaming op that panicked: what it had read, written and traced up to the panic is reported too
+            Err(_) => match live_report() {
+                Some(obs) => format!("outcome=panic {}", obs),
+                None => "outcome=panic".to_string(),
+            },
         };
         writeln!(out, "{} {}", id, body).unwrap();
         out.flush().unwrap(); // one reply per request line, usable interactively over pipes
